@@ -116,7 +116,7 @@ def variants(c):
         return v
     if op == "unp":
         wd, cnt = c["w"], c["cnt"]
-        lays = ["C1", "C2", "F", "S", "R"]
+        lays = ["C1", "C2", "F", "S", "R", "B"]        # B: source in the non-native byte order of its kind (same values)
         v = [("ndarray", dk, sk, lay) for dk in NP_KINDS[wd] for sk in ALL_KINDS for lay in lays]
         v += [("list", dk, "int64", "L") for dk in NP_KINDS[wd]]
         return v
@@ -127,7 +127,7 @@ def vclass(c, var):
     op = c["op"]
     if op == "unp":
         conv = "same-dtype" if var[1] == var[2] else "converting"
-        return f"{var[0]}:{ {'C1': 'C', 'C2': 'C-2D', 'F': 'F-2D', 'S': 'strided', 'R': 'reversed', 'L': 'list'}[var[3]] }:{conv}"
+        return f"{var[0]}:{ {'C1': 'C', 'C2': 'C-2D', 'F': 'F-2D', 'S': 'strided', 'R': 'reversed', 'L': 'list', 'B': 'byteswapped'}[var[3]] }:{conv}"
     if op == "tnp":
         return f"{var[0]}:{var[2][0]}"
     return var[0]
@@ -200,12 +200,14 @@ class World:
                 base = np.zeros(2 * cnt, dtype=sk)
                 base[::2] = arr
                 src = base[::2]
+            elif lay == "B":
+                src = arr.astype(arr.dtype.newbyteorder())
             else:
                 base = arr[::-1].copy()
                 src = base[::-1]
         want = np.asarray(src).astype(dk).tobytes()       # Aux: NumPy's own conversion, elements in index (C) order
         ws = np.asarray(src).dtype.itemsize
-        return src, ws, {"C1": "C", "C2": "C", "F": "F", "S": "S", "R": "S", "L": "C"}[lay], want
+        return src, ws, {"C1": "C", "C2": "C", "F": "F", "S": "S", "R": "S", "L": "C", "B": "C"}[lay], want
 
     # -- one primitive
     def do(self, c, var, data):
